@@ -139,6 +139,14 @@ def step (s : St) (toks : List String) : St × String :=
   | ["LSHUT"] | ["LSHUT2"] =>      -- LSHUT2: two overlapping shutdown() calls: one shutdown
     let (s', _) := apply s .shutdown 0 {}
     ({ s' with asyncDead := s.asyncDead || s.asyncMode }, "ok")
+  | ["LREOPEN", now] =>     -- LoggerHandle::reopen_output
+    match now.toNat? with
+    | some now => apply s .reopen now {}
+    | none => (s, "bad-op")
+  | ["LROT", now] =>        -- LoggerHandle::trigger_rotation
+    match now.toNat? with
+    | some now => apply s .rotate now {}
+    | none => (s, "bad-op")
   | ["LCLONE"] => (s, "ok")
   -- dropping a clone of the handle shuts the writers down: in the synchronous modes that is a flush
   -- (async mode: the drop of ANY clone sends the shutdown message and joins the writer thread)
@@ -180,6 +188,29 @@ def step (s : St) (toks : List String) : St × String :=
         ({ s with st := { s.st with dir := p.dir, link := p.link, act := none }, linkText := lt }, "killed")
       | none => let (s', _) := apply s .rotate now {}; (s', "nopoint")
     | _, _ => (s, "bad-op")
+  -- C11, kill at an arbitrary instant: the process wrote the burst `recs` (all at `now`), the first
+  -- `n` log calls returned, then it was killed; `snap` is the directory found afterwards. It must be
+  -- one of the directories the model passes through during the write in flight: before it, at one
+  -- of its recorded points, or after it. The model continues from the matching one.
+  | "KOBS" :: recs :: now :: n :: snap =>
+    match (recs.splitOn ",").mapM hexToBytes, now.toNat?, n.toNat? with
+    | some recs, some now, some n =>
+      let snap := " ".intercalate snap
+      let s1 := (recs.take n).foldl (fun s b => (apply s (.write b) now {}).1) s
+      let cands : List (Dir × Option FName) :=
+        match recs[n]? with
+        | none => [(s1.st.dir, s1.st.link)]
+        | some b =>
+          let (post, pts) := stepT s1.st (.write b) now
+          (s1.st.dir, s1.st.link) :: pts.map (fun p => (p.dir, p.link)) ++ [(post.dir, post.link)]
+      let snapOf (c : Dir × Option FName) : String := snapStr { s1 with st := { s1.st with dir := c.1 } }
+      match cands.find? (fun c => snapOf c == snap) with
+      | some c =>
+        let lt := match c.2 with | none => "-" | some nm => textToHex (render s1.spec nm)
+        ({ s1 with st := { s1.st with dir := c.1, link := c.2, act := none }, linkText := lt }, "match")
+      | none => (s1, "nomatch: no directory of the model's write in flight equals the one found; candidates: " ++
+          " | ".intercalate (cands.map snapOf))
+    | _, _, _ => (s, "bad-op")
   | ["FLUSH"] => apply s .flush 0 {}
   | ["SHUT"] => apply s .shutdown 0 {}
   | "RESTART" :: rest =>
